@@ -10,6 +10,9 @@ import (
 type VCL struct {
 	Statements []Statement
 	IsSnippet  bool // True if parsed as a snippet (statements without subroutine wrapper)
+	// Comments behind the last declaration on lines of their own (the comments on the line of
+	// its closing brace are its Trailing comments): they belong to no node
+	Trailing Comments
 }
 
 func (v *VCL) String() string {
